@@ -46,8 +46,8 @@ ASSUMPTIONS = {
             "ref/secp.py ECDSA/BIP340 verification and ref/sighash.py are correct (self-tested on published vectors)", "a False verdict and an exception are both 'invalid'"],
 }
 TIERS = {
-    "C05": {"quick": {"runs": 12000, "chunk": 150, "per_run_timeout": 120, "wall_cap": 300}, "thorough": {"runs": 300000, "chunk": 300, "per_run_timeout": 300, "wall_cap": 3000}},
-    "C06": {"quick": {"runs": 700, "chunk": 8, "per_run_timeout": 300, "wall_cap": 400, "minimise_budget": 240}, "thorough": {"runs": 12000, "chunk": 10, "per_run_timeout": 600, "wall_cap": 3000, "minimise_budget": 400}},
+    "C05": {"quick": {"runs": 12000, "chunk": 150, "per_run_timeout": 120, "wall_cap": 300}, "thorough": {"runs": 300000, "chunk": 300, "per_run_timeout": 300, "wall_cap": 2400}},
+    "C06": {"quick": {"runs": 700, "chunk": 8, "per_run_timeout": 300, "wall_cap": 400, "minimise_budget": 240}, "thorough": {"runs": 12000, "chunk": 10, "per_run_timeout": 600, "wall_cap": 2400, "minimise_budget": 400}},
 }
 
 KINDS = ["p2pkh", "p2sh_ms", "p2wpkh", "p2sh_p2wpkh", "p2wsh_ms", "p2sh_p2wsh_ms", "p2tr_key", "p2tr_script"]
